@@ -270,3 +270,94 @@ func ReorderWire(t *sim.T, b []byte) ([]byte, string) {
 	}
 	return out, desc
 }
+
+// ---------------------------------------------------------------------------------------
+// CRC-32 forging: a second content with the same length and the same CRC-32 (the pair of values a zip
+// directory records for a member, and what "content addressed" caches are tempted to use as their key).
+
+var crcRev = func() (rev [256]byte) {
+	for i, v := range crc32.IEEETable {
+		rev[v>>24] = byte(i)
+	}
+	return
+}()
+
+// forgeCRC overwrites b[pos:pos+4] so that the CRC-32 (IEEE) of b becomes target.
+func forgeCRC(b []byte, pos int, target uint32) bool {
+	if pos < 0 || pos+4 > len(b) {
+		return false
+	}
+	tab := crc32.IEEETable
+	c0 := ^uint32(0)
+	for _, x := range b[:pos] {
+		c0 = tab[byte(c0)^x] ^ (c0 >> 8)
+	}
+	// the register wanted after the four patch bytes: run the suffix backwards from the final register
+	c := ^target
+	for i := len(b) - 1; i >= pos+4; i-- {
+		idx := crcRev[c>>24]
+		c = ((c ^ tab[idx]) << 8) | uint32(idx^b[i])
+	}
+	// four more steps backwards over zero bytes give the register r with update(r, 0000) = c; processing
+	// bytes X from register c0 is the same as processing X xor c0 from register 0
+	r := c
+	for i := 0; i < 4; i++ {
+		idx := crcRev[r>>24]
+		r = ((r ^ tab[idx]) << 8) | uint32(idx)
+	}
+	x := r ^ c0
+	b[pos], b[pos+1], b[pos+2], b[pos+3] = byte(x), byte(x>>8), byte(x>>16), byte(x>>24)
+	return crc32.ChecksumIEEE(b) == target
+}
+
+// ForgeCRCSibling returns a clone of the feed in which one member has other content of the same length and
+// the same CRC-32 as in f (one digit of a data row changed, four bytes elsewhere in the data rows solved for;
+// the solved bytes never contain a quote, a comma or a line break, so the record structure stays as it was).
+func ForgeCRCSibling(t *sim.T, f *Feed, o ZipOpts) (*Feed, string) {
+	var cands []int
+	for i, tb := range f.Tables {
+		if tb.Raw == nil && len(tb.Rows) >= 2 {
+			cands = append(cands, i)
+		}
+	}
+	if len(cands) == 0 {
+		return nil, ""
+	}
+	ti := cands[t.Choose(len(cands))]
+	a := f.MemberBody(ti, o)
+	target := crc32.ChecksumIEEE(a)
+	// data region: after the first line break
+	start := bytes.IndexByte(a, '\n') + 1
+	if start <= 0 || len(a)-start < 12 {
+		return nil, ""
+	}
+	var digits []int
+	for i := start; i < len(a); i++ {
+		if a[i] >= '0' && a[i] <= '9' {
+			digits = append(digits, i)
+		}
+	}
+	if len(digits) == 0 {
+		return nil, ""
+	}
+	for attempt := 0; attempt < 40; attempt++ {
+		b := append([]byte(nil), a...)
+		d := digits[t.Choose(len(digits))]
+		b[d] = '0' + (b[d]-'0'+1+byte(t.Choose(9)))%10
+		pos := start + t.Choose(len(a)-start-4)
+		if d >= pos && d < pos+4 {
+			continue
+		}
+		// the window must not swallow a delimiter either
+		if bytes.ContainsAny(b[pos:pos+4], "\",\r\n") {
+			continue
+		}
+		if !forgeCRC(b, pos, target) || bytes.ContainsAny(b[pos:pos+4], "\",\r\n") || bytes.Equal(a, b) {
+			continue
+		}
+		sib := f.Clone()
+		sib.Tables[ti].Raw = b
+		return sib, fmt.Sprintf("%s: same length (%d) and CRC-32 (%08x), digit at offset %d changed, bytes %d-%d solved", f.Tables[ti].Name, len(b), target, d, pos, pos+3)
+	}
+	return nil, ""
+}
